@@ -89,6 +89,35 @@ def run(prog, rep, tier='quick', config='default'):
     if n_some == 0:
         rep.violation('R12b', 'anchor-lost:map-rate-return', detail='anchor lost: no site returns a rate taken from the per-year rate map')
 
+    # ------------------------------------------------------------------ R12e: the per-day map only holds loaded data
+    n_mut = 0
+    for fn in prog.product_fns():
+        if not fn.name.startswith(MOD) or 'testlib' in fn.name:
+            continue
+        for c in fn.calls:
+            a0 = c.arg_local(0)
+            if a0 is None or not re.search(r'^&mut std::collections::HashMap<time::Date, fx::model::DailyRate', fn.ty.get(a0, '')):
+                continue
+            if c.short not in ('insert', 'entry', 'get_mut', 'remove', 'extend', 'retain', 'clear', 'or_insert', 'or_insert_with'):
+                continue
+            if not fn.ty.get(a0, '').startswith('&mut'):
+                continue
+            n_mut += 1
+            k = '%s|day-map-%s' % (fn.name, c.short)
+            # allowed: building the map from a slice/Vec of loaded rates (the value derives from a &Vec<DailyRate> parameter)
+            vo = mir.provenance(fn, c.args[-1], follow_all_call_args=True) if len(c.args) > 1 else None
+            from_vec = vo is not None and any(re.search(r'Vec<fx::model::DailyRate>', fn.ty.get(p, '')) for p in vo.params)
+            recv = mir.provenance(fn, c.args[0])
+            local_map = not recv.params and not any(of.endswith('RateLoader') for of, f in recv.fields)
+            if c.short == 'insert' and from_vec and local_map:
+                rep.ok('R12e', k, where=c.where(), fn=fn.name, detail='per-day map built from a loaded year of rates')
+            else:
+                rep.violation('R12e', k, where=c.where(), fn=fn.name,
+                              detail='the per-day rate map is modified (%s) with a value that is not an element of a loaded year: a derived rate stored under '
+                                     'another date would later be taken for a published rate of that date (and escape the 7-day limit)' % c.short)
+    if n_mut == 0:
+        rep.violation('R12e', 'anchor-lost:day-map-construction', detail='anchor lost: construction of the per-day rate map')
+
     # ------------------------------------------------------------------ R12c
     loops = []
     for fn in prog.product_fns():
